@@ -1,8 +1,9 @@
 use crate::engine::PropDef;
 
+pub mod c01;
 pub mod c06;
 pub mod c28;
 
 pub fn all() -> Vec<PropDef> {
-    vec![c06::def(), c28::def()]
+    vec![c01::def(), c06::def(), c28::def()]
 }
